@@ -213,7 +213,7 @@ CLAIMED = {
  "C02": dict(
    text=("Lean theorems: for EVERY instant below 24 h (integer or fractional microseconds) the shared hh:mm:ss.mmm formatter and the WebVTT [hh:]mm:ss.mmm "
          "formatter produce fixed-width fields with mm,ss<60 that an independent reader maps back to the instant truncated to milliseconds (format_denotes, "
-         "vtt_timestamp_denotes, vtt_hours_omitted_iff, fields_in_range: all carries, proved with omega); the SAMI writer's sync planning state machine for one "
+         "vtt_timestamp_denotes, vtt_hours_omitted_iff, fields_in_range: all carries, proved with omega; two instants below 24 h get the same written stamp only inside one millisecond - format_injective, vtt_timestamp_injective - and the written millisecond truncates and is monotone - written_ms_truncates; an example shows 0 s and 24 h are written alike, i.e. the bound is needed); the SAMI writer's sync planning state machine for one "
          "language equals 'blank sync at the previous end ms unless the cue starts there, then the cue's sync, nothing after the last' for every cue list "
          "(sami_sync_plan, induction over the cue list with the last_time state), and for ANY number of languages and any cues the paragraphs of the written "
          "document with the start of their block are, as a multiset, exactly the per-language plans - nothing else is written, nothing is lost "
